@@ -2,4 +2,5 @@ SPECIFICATION TraceSpec
 CONSTANTS
   Assets = {"A", "B", "C"}
   Bug = "none"
+  Structural = FALSE
 CHECK_DEADLOCK FALSE
